@@ -502,6 +502,10 @@ func (r *funcRun) callWrites(cc *ssa.CallCommon) []string {
 func (r *funcRun) step(st *State, in ssa.Instruction, b *ssa.BasicBlock) ([]workItem, bool) {
 	switch x := in.(type) {
 	case *ssa.DebugRef:
+		if vr, isVar := x.Object().(*types.Var); isVar && vr.IsField() {
+			// a selector expression: the "object" is a struct field, not a local variable
+			return nil, false
+		}
 		if x.IsAddr {
 			if obj := x.Object(); obj != nil {
 				if v, ok := st.regs[x.X.Name()]; ok {
